@@ -3,10 +3,16 @@ pub mod c07;
 pub mod c08;
 pub mod c09;
 pub mod c10;
+pub mod c11;
+pub mod c12;
 pub mod c13;
 pub mod c14;
 pub mod c15;
+pub mod c16;
+pub mod c19;
 pub mod c17;
+pub mod c18;
+pub mod proggen;
 pub mod elfgen;
 pub mod common;
 pub mod hwprops;
@@ -25,6 +31,18 @@ const MODEL_ASSUME: &[&str] = &[
     "the reference model in the harness is the oracle (written from the SDM / System V ABI / elf(5), not from the subject's source)",
     "verdicts are for release-profile semantics, hooks on (fatal_error!/assert_fatal! return Err as on wasm32, so only real crashes unwind)",
     "the monitor observes the native Rust API; the wasm-bindgen/JS wrappers are not compiled on this target",
+];
+
+const EVENT_ASSUME: &[&str] = &[
+    "iced-x86 (the library the subject uses too) is trusted for instruction lengths, mnemonics and direct-branch targets in the harness-side bookkeeping; a common-mode decoder error is invisible here and visible to engine A",
+    "release-profile semantics, hooks on; native hooks only (the wasm/JS hook path is not compiled on this target)",
+    "event logs are written at the client boundary (around step()) and by instrumented native hooks; the checker runs online after every step",
+];
+
+const CRASH_ASSUME: &[&str] = &[
+    "hooks on: by-design rejections (fatal_error!/assert_fatal!/opcode_unimplemented!) return Err as on wasm32, so whatever still unwinds, aborts or stalls is a real crash",
+    "release-profile semantics (debug_assert off, arithmetic wraps)",
+    "termination is a bounded-progress restatement: no progress for 20 s, then the same case alone for 120 s",
 ];
 
 pub fn spec(prop: &str) -> Option<CheckSpec> {
@@ -86,8 +104,34 @@ pub fn spec(prop: &str) -> Option<CheckSpec> {
             info: PropInfo { id: "C15", engine: "model", rule: "ELF64 executables written by the harness (1-6 PT_LOAD segments in any header order on distinct pages, aligned or unaligned vaddr, filesz/memsz cases equal / bss tail / filesz 0 / page multiples / one byte over a page, all 8 flag masks, benign NOTE / GNU_STACK / GNU_PROPERTY / GNU_EH_FRAME / PHDR / NULL headers, optional .symtab with defined, undefined, duplicate-address, nameless and bad-name-index symbols, entry anywhere) plus the bundled binaries; oracle = the file itself, read back through the area-list hook, mem_read_bytes, RIP and resolve_symbol. PT_TLS / RELRO / vaddr-0 images are outside the claimed space. distinct_nontrivial = distinct (flags, filesz/memsz class, vaddr alignment, size class) segment tuples plus symbol-table classes.", assumptions: MODEL_ASSUME, floor: (2_000, 200_000), exhaustive_subspaces: &[] },
             finalize: None,
         },
+        "C16" => CheckSpec {
+            info: PropInfo { id: "C16", engine: "crash", rule: "from_binary on mutants of generated and bundled ELF files: single- and multi-field mutations of every ELF-header, program-header, section-header and symbol field (values 0, 1, +-1, page edges, 2^31, 2^32, 2^40, 2^47, 2^63, 2^64-1, file length +-1, bit flips, random), truncations at header boundaries and random points, random byte overwrites, random bytes behind a valid magic. Each load runs under catch_unwind in a worker process whose address space is limited to 1 GiB (RLIMIT_AS); a death or a stall is attributed through the shared progress page and confirmed by re-running the case alone. distinct_nontrivial = distinct (mutated field(s) + value class, outcome) pairs.", assumptions: CRASH_ASSUME, floor: (20_000, 1_000_000), exhaustive_subspaces: &[] },
+            finalize: Some(finalize_c16),
+        },
+        "C19" => CheckSpec {
+            info: PropInfo { id: "C19", engine: "crash", rule: "one step() on a fresh machine per input: byte strings that are uniform (length 1-15), prefix/REX/opcode-structured over all one-, two- and three-byte opcodes, or encodings of the implemented forms re-prefixed and byte-mutated; register/flag/XMM/segment-base state from engine A's boundary-biased distributions, registers steered so that decoded memory operands hit mapped, read-only, edge, unmapped and non-canonical addresses; sometimes the fetch window is cut short by the end of the code area. Outcome Ok / Err / panic under catch_unwind; deaths and stalls via the supervisor. distinct_nontrivial = distinct (decoded iced Code or 'undecodable', outcome) pairs.", assumptions: CRASH_ASSUME, floor: (500_000, 20_000_000), exhaustive_subspaces: &[] },
+            finalize: None,
+        },
+        "C11" => CheckSpec {
+            info: PropInfo { id: "C11", engine: "events", rule: "structured random programs x configurations {no limit, every instruction limit 0..len+2 (sampled for long programs), scripted before/after hooks on 8 mnemonics that stop at executed count k, with or without init_stack}: twin A runs execute(), twin B is stepped; after EVERY step of B the harness checks the executed count (+1), RIP against its own decode of the bytes at the old RIP for non-transfer instructions, the finished accessor against the three finish conditions (RIP == end of code, top-level RET on an empty stack, hook stop) and the return value; refused steps (after finish / at the limit) must leave a full-state snapshot unchanged; the twins' results, error texts and final snapshots must be equal; two further steps after the end must fail and change nothing. distinct_nontrivial = distinct (mnemonic, finish-condition flags) step tuples plus (limit?, stop phase, terminal condition) configuration triples.", assumptions: EVENT_ASSUME, floor: (50_000, 3_000_000), exhaustive_subspaces: &["for programs of natural length <= 10: every instruction limit 0..len+2"] },
+            finalize: None,
+        },
+        "C12" => CheckSpec {
+            info: PropInfo { id: "C12", engine: "events", rule: "structured random programs (incl. SYSCALL, calls, jumps, faulting tails) with 0-4 instrumented native hooks per phase on 1-4 mnemonics, each with a per-invocation outcome script over {unhandled, handled, stop, stop+handled, error}; some hooks try to register a hook from inside; further hooks are registered between steps, after failed steps and after a stop. Event log: StepCall/StepReturn at the client boundary, one Hook event per invocation (id, mnemonic passed, RIP seen, count seen, digest of the state seen, outcome); each invocation bumps R15 and appends its id to a guest-memory list. Online checker after EVERY step: phase ordering, at most once per phase, mnemonic match, RIP advanced, complete-set-unless-handled/stopped/failed, step result, stop semantics, and a hook-free twin on which the observed modifications are replayed around the same instruction (what each hook saw, and the final state, must match). distinct_nontrivial = distinct (phase, outcome, inner-registration) event classes, hook-configuration classes and registration situations.", assumptions: EVENT_ASSUME, floor: (30_000, 2_000_000), exhaustive_subspaces: &[] },
+            finalize: Some(c12::finalize),
+        },
+        "C18" => CheckSpec {
+            info: PropInfo { id: "C18", engine: "events", rule: "structured random programs (ALU, loads/stores, if/else on all 16 conditions with rel8/rel32, counted loops, direct and indirect jumps and calls, nested functions, balanced push/pop, k returns that no call matches, top-level ret, faulting tails) are stepped; an independent tracer in the harness decodes the instruction at each pre-step RIP, evaluates the branch condition from the pre-step flags/RCX with its own table and maintains the expected entries (source, target, kind, run-length count, level = calls minus returns) and call stack; after EVERY step the structured trace and call stack (hook) are compared with it and trace(), call_stack() and to_string() are called and must return Ok. distinct_nontrivial = distinct (control-flow event kind, outcome) pairs plus (terminal condition, minimum level, trace length) triples.", assumptions: EVENT_ASSUME, floor: (30_000, 2_000_000), exhaustive_subspaces: &[] },
+            finalize: None,
+        },
         _ => return None,
     })
+}
+
+fn finalize_c16(m: &mut Merged, _t: Tier) {
+    let mx = m.sets.get("largest_single_allocation_bytes_per_worker").map(|s| s.iter().filter_map(|x| x.parse::<u64>().ok()).max().unwrap_or(0)).unwrap_or(0);
+    m.extra.insert("largest_single_allocation_bytes".into(), serde_json::json!(mx));
+    m.extra.insert("address_space_limit_bytes".into(), serde_json::json!(1u64 << 30));
 }
 
 pub fn monitor(prop: &str, tier: Tier) -> Option<Box<dyn Monitor>> {
@@ -102,10 +146,15 @@ pub fn monitor(prop: &str, tier: Tier) -> Option<Box<dyn Monitor>> {
         "C08" => Box::new(c08::C08::new(tier)),
         "C09" => Box::new(c09::C09::new(tier)),
         "C10" => Box::new(c10::C10::new(tier)),
+        "C11" => Box::new(c11::C11::new(tier)),
+        "C12" => Box::new(c12::C12::new(tier)),
         "C13" => Box::new(c13::C13::new(tier)),
         "C14" => Box::new(c14::C14::new(tier)),
         "C15" => Box::new(c15::C15::new(tier)),
+        "C16" => Box::new(c16::C16::new(tier)),
         "C17" => Box::new(c17::C17::new(tier)),
+        "C18" => Box::new(c18::C18::new(tier)),
+        "C19" => Box::new(c19::C19::new(tier)),
         _ => return None,
     })
 }
@@ -114,6 +163,8 @@ pub fn monitor(prop: &str, tier: Tier) -> Option<Box<dyn Monitor>> {
 pub fn replay(prop: &str, case: &serde_json::Value) -> i32 {
     match case["kind"].as_str().unwrap_or("") {
         "hw" => crate::hw::run::replay_trial(case),
+        "emu" => c19::replay_emu(case),
+        "elf" => c16::replay_elf(case),
         "case" => {
             // a whole generated case, identified by (tier, seed, k)
             let tier = Tier::parse(case["tier"].as_str().unwrap_or("quick")).unwrap_or(Tier::Quick);
